@@ -48,6 +48,10 @@ FastFormsAgree   == \A d \in 0..S : MergeDecl(a, S, d) = Merge(a, S, d)
 OverlapSymmetric == OverlapCount(a, b, S) = OverlapCount(b, a, S)
 ExtendInside     == \A i \in DOMAIN a : \A l \in 1..S : \A st \in {"+", "-"} :
                        Inside(ExtendToSize(a[i], st, l, S), S)
+\* an empty interval [p, p) inserted anywhere in the collection covers nothing
+EmptyCoversNothing == \A k \in 1..(Len(a) + 1) : \A p \in 0..S :
+                        LET a2 == SubSeq(a, 1, k - 1) \o <<[s |-> p, e |-> p]>> \o SubSeq(a, k, Len(a))
+                        IN Mask(a2, S) = Mask(a, S) /\ Pileup(a2, S) = Pileup(a, S)
 \* action property: adding an interval never lowers the pile-up anywhere
 PileupMonotone   == [][\A p \in 1..S : Pileup(a', S)[p] >= Pileup(a, S)[p]]_vars
 
